@@ -37,7 +37,7 @@ def run_one(nid: str) -> dict:
             p = f'C{n:02d}'
             rc, out = sh(f'{VERIF}/check {p} --repo {tmp} --no-evidence --replay-dir {tmp}/replay')
             if rc == 1:
-                res['alarms'][p] = [ln.split('construct: ', 1)[1].strip() for ln in out.splitlines() if 'construct: ' in ln][:5]
+                res['alarms'][p] = [ln.split('construct: ', 1)[1].strip() for ln in out.splitlines() if 'construct: ' in ln]
             elif rc == 2:
                 res['errors'][p] = [ln[:200] for ln in out.splitlines() if 'ANALYSIS-ERROR' in ln][:3]
     finally:
